@@ -15,6 +15,10 @@ def run(res, work, tier, seed):
     # (samples recorded through a histogram that was handed another one's storage are delivered under the wrong buckets)
     vlib.run_core_family(res, work, "c20", tier, seed, parts=4, clauses={"KeepsOwnBounds", "NoCrash"}, timeout=3400)
     free(res, work, tier, seed)
+    # "everything recorded through any of the returned handles is delivered", timers: several goroutines record on one
+    # timer at the same time (test scope, plain, cached) - the driver and trace spec of C10
+    from props import c10
+    c10.conc(res, work, tier, seed)
     from props import corestep
     corestep.run(res, work, tier, seed, "C09")   # step-level replay of the st-c09 scenarios through TallyCore.tla (drift, not a verdict)
     if tier == "thorough":
